@@ -26,13 +26,19 @@
 //!             param: get_param() until it fails or the signature is used up
 //!             validate: body.validate()          all: MarshalledMessage::unmarshall_all()
 //!   HD <phase> <hex>                                 unmarshal_header, unmarshal_dynamic_header, unmarshal_next_message as
-//!                                                    RecvConn::get_next_message calls them, then validate + unmarshall_all
+//!                                                    RecvConn::get_next_message calls them; on an accepted message the whole
+//!                                                    parser surface (sigs_left, get_next_sig, get::<T> for several T, get2, get_param
+//!                                                    loop, validate, unmarshall_all): the body signature comes from the header
+//!   RXM <hex>                                        like RX, and the same parser surface on the message get_next_message returns
 //!   HB <bo> <nfields> <each>                          a header whose field array holds <nfields> unknown fields, each a byte
 //!                                                    array of <each> bytes (built here): unmarshal_header + unmarshal_dynamic_header
 //!   RX <hex>                                         the bytes are written to the peer end of a real connection,
 //!                                                    conn.recv.get_next_message(Duration(50ms))
-//!   SB <kind> <bo> <content_bytes>                   push an array whose content has that many bytes; kind u8|u64|bool|pstr
+//!   SB <kind> <bo> <content_bytes>                   push an array whose content has that many bytes; kind u8|u64|bool|pstr|dict|dicts|pdict
 //!   SD <kind> <depth>                                push_old_param of a Param tree nested <depth> containers deep; kind v|mix
+//!   ST <kind> <depth>                                TYPED value of a self-referential type nested <depth> containers deep (kind drec|msrec|
+//!                                                    vec: Vec<DRec>): push_param, wire::marshal::marshal, send_message_write_all on a real
+//!                                                    connection, and the library's own body.validate() on what was pushed
 //!   SM <bo> <len1> <len2> <extra>                    body = byte arrays of len1, len2 (0 = absent) and <extra> single bytes;
 //!                                                    wire::marshal::marshal (header + length check)
 //!   LB <entry> <bo> <phase> <L> <present>            an array whose length field says L with <present> zero bytes of content
@@ -322,6 +328,57 @@ fn sig_is_valid(sig: &str) -> bool {
     sig.is_empty() || rustbus::params::validation::validate_signature(sig).is_ok()
 }
 
+/// everything a receiver can call on a message that the library handed out: the body signature is whatever the header
+/// decoder accepted, so none of this may panic
+fn parser_surface(msg: &MarshalledMessage) -> String {
+    let body = &msg.body;
+    let mut out = Vec::new();
+    {
+        let p = body.parser();
+        out.push(format!("left={}", p.sigs_left()));
+        out.push(format!("next={}", p.get_next_sig().map(|s| s.len() as i64).unwrap_or(-1)));
+    }
+    macro_rules! try_get {
+        ($t:ty) => {{
+            let mut p = body.parser();
+            let a = p.get::<$t>().is_ok();
+            let b = p.get::<$t>().is_ok();
+            let c = p.sigs_left();
+            out.push(format!("{}{}{}", a as u8, b as u8, c.min(9)));
+        }};
+    }
+    try_get!(u8);
+    try_get!(String);
+    try_get!(Vec<u8>);
+    try_get!((u8, String));
+    try_get!(HashMap<String, rustbus::wire::unmarshal::traits::Variant>);
+    try_get!(rustbus::wire::unmarshal::traits::Variant);
+    try_get!(DS1);
+    try_get!(DE1);
+    try_get!(MS1);
+    {
+        let mut p = body.parser();
+        let a = p.get2::<u8, String>().is_ok();
+        let b = p.get3::<u8, u8, u8>().is_ok();
+        let c = p.get5::<String, u32, u32, u32, u32>().is_ok();
+        out.push(format!("g{}{}{}", a as u8, b as u8, c as u8));
+    }
+    {
+        let mut p = body.parser();
+        let mut n = 0;
+        for _ in 0..300 {
+            if p.get_param().is_ok() {
+                n += 1;
+            } else {
+                break;
+            }
+        }
+        out.push(format!("params={}", n));
+    }
+    out.push(format!("validate={}", body.validate().is_ok()));
+    out.join(",")
+}
+
 fn eval(line: &str) -> String {
     let toks: Vec<&str> = line.split(' ').filter(|t| !t.is_empty()).collect();
     let num = |i: usize| -> usize { toks[i].parse().unwrap() };
@@ -481,9 +538,9 @@ fn eval(line: &str) -> String {
                 Ok(msg) => msg,
                 Err(_) => return format!("err stage=message {}", m.stop()),
             };
-            let val = msg.body.validate().is_ok();
+            let surf = parser_surface(&msg);
             let all = msg.unmarshall_all().is_ok();
-            format!("ok validate={} all={} {}", val, all, m.stop())
+            format!("ok surface={} all={} {}", surf, all, m.stop())
         }
         "HB" => {
             let bo = bo_of(toks[1]);
@@ -532,24 +589,35 @@ fn eval(line: &str) -> String {
                 Err(_) => format!("err stage=dynheader hfl={} {}", hfl, m.stop()),
             }
         }
-        "RX" => {
+        "RX" | "RXM" => {
             let bytes = unhex(toks[1]);
             let (mut conn, mut peer) = rbverif::conn::connect_pair(false);
             peer.write_all(&bytes).unwrap();
             let m = Meter::start();
             let t0 = std::time::Instant::now();
-            let r = conn.recv.get_next_message(rustbus::connection::Timeout::Duration(std::time::Duration::from_millis(50)));
+            // the time-out only ends the wait for bytes that never come; a refusal is recognised by its error, not by its speed
+            let r = conn.recv.get_next_message(rustbus::connection::Timeout::Duration(std::time::Duration::from_millis(300)));
             let ms = t0.elapsed().as_millis();
+            use rustbus::wire::errors::UnmarshalError as UE;
             let s = match &r {
                 Ok(_) => "ok".to_string(),
                 Err(rustbus::connection::Error::TimedOut) => "err kind=timedout".to_string(),
                 Err(rustbus::connection::Error::ConnectionClosed) => "err kind=closed".to_string(),
+                Err(rustbus::connection::Error::UnmarshalError(UE::MessageTooLong)) => "err kind=limit what=MessageTooLong".to_string(),
+                Err(rustbus::connection::Error::UnmarshalError(UE::ArrayTooLong)) => "err kind=limit what=ArrayTooLong".to_string(),
+                Err(rustbus::connection::Error::UnmarshalError(e)) => format!("err kind=unmarshal what={:?}", e).replace(' ', "_").replace("_kind=", " kind=").replace("_what=", " what="),
                 Err(_) => "err kind=other".to_string(),
             };
             let a = m.stop();
-            drop(r);
+            let surf = match (&r, toks[0]) {
+                (Ok(msg), "RXM") => format!(" surface={}", parser_surface(msg)),
+                _ => String::new(),
+            };
+            if let (Ok(msg), "RXM") = (r, toks[0]) {
+                let _ = msg.unmarshall_all();
+            }
             drop(peer);
-            format!("{} ms={} {}", s, ms, a)
+            format!("{} ms={}{} {}", s, ms, surf, a)
         }
         "SB" => {
             let kind = toks[1];
@@ -577,6 +645,37 @@ fn eval(line: &str) -> String {
                         mp.insert(i, i);
                     }
                     body.push_param(&mp).is_ok()
+                }
+                "dicts" | "pdict" => {
+                    // a{us} whose entries are 2^20 bytes each (key 4 + length 4 + string of 2^20 - 9 bytes + NUL); when n is not a
+                    // multiple of 2^20 one more entry with an empty string (9 bytes, plus padding unless it comes last)
+                    let mib = 1usize << 20;
+                    let big = "a".repeat(mib - 9);
+                    let full = n / mib;
+                    if kind == "dicts" {
+                        let mut mp: HashMap<u32, String> = HashMap::new();
+                        for i in 0..full as u32 {
+                            mp.insert(i, big.clone());
+                        }
+                        if n % mib != 0 {
+                            mp.insert(full as u32, String::new());
+                        }
+                        body.push_param(&mp).is_ok()
+                    } else {
+                        let mut map = HashMap::new();
+                        for i in 0..full as u32 {
+                            map.insert(Base::Uint32(i), Param::Base(Base::String(big.clone())));
+                        }
+                        if n % mib != 0 {
+                            map.insert(Base::Uint32(full as u32), Param::Base(Base::String(String::new())));
+                        }
+                        let d = Param::Container(Container::Dict(rustbus::params::Dict {
+                            key_sig: signature::Base::Uint32,
+                            value_sig: signature::Type::Base(signature::Base::String),
+                            map,
+                        }));
+                        body.push_old_param(&d).is_ok()
+                    }
                 }
                 "pstr" => {
                     // Param array of strings of (1 MiB - 8) bytes: 4 + len + 1 + padding = 1 MiB per element, the last one shorter
@@ -635,6 +734,64 @@ fn eval(line: &str) -> String {
             // dropping a deeply nested Param recurses as well; do it here so that it is part of the observation
             drop(p);
             res
+        }
+        "ST" => {
+            let kind = toks[1];
+            let depth = num(2);
+            let mut body = MarshalledMessageBody::new();
+            // containers: every Node is a variant holding an array: 2 levels; the innermost Leaf is a variant: 1 level
+            let levels = depth / 2;
+            let pushed = match kind {
+                "drec" | "vec" => {
+                    let mut v = DRec::Leaf(7);
+                    for _ in 0..levels {
+                        v = DRec::Node(vec![v]);
+                    }
+                    let r = if kind == "vec" { body.push_param(vec![v]).is_ok() } else { body.push_param(&v).is_ok() };
+                    r
+                }
+                "msrec" => {
+                    let mut v = MSRec::Leaf(7);
+                    for _ in 0..levels {
+                        v = MSRec::Node(vec![v]);
+                    }
+                    // (the value is dropped iteratively below: MSRec has no derive we could take apart, so keep depth moderate)
+                    let r = body.push_param(&v).is_ok();
+                    std::mem::forget(v);
+                    r
+                }
+                x => panic!("kind {}", x),
+            };
+            let mut msg = rustbus::message_builder::MessageBuilder::new()
+                .call("Member")
+                .on("/obj/path")
+                .with_interface("io.verif.Iface")
+                .at("io.verif.Dest")
+                .build();
+            msg.body = body;
+            let validates = msg.body.validate().is_ok();
+            let mut hdr = Vec::new();
+            let marshalled = rustbus::wire::marshal::marshal(&msg, std::num::NonZeroU32::new(1).unwrap(), &mut hdr).is_ok();
+            let (mut conn, mut peer) = rbverif::conn::connect_pair(false);
+            let total = hdr.len() + msg.get_buf().len();
+            let reader = std::thread::spawn(move || {
+                let mut got = 0usize;
+                let mut b = [0u8; 65536];
+                peer.set_read_timeout(Some(std::time::Duration::from_millis(2000))).unwrap();
+                while got < total {
+                    match peer.read(&mut b) {
+                        Ok(0) | Err(_) => break,
+                        Ok(k) => got += k,
+                    }
+                }
+                got
+            });
+            let sent = pushed && conn.send.send_message_write_all(&msg).is_ok();
+            drop(conn);
+            let got = reader.join().unwrap_or(0);
+            let nesting = 2 * levels + 1 + if kind == "vec" { 1 } else { 0 };
+            format!("{} nesting={} pushed={} marshalled={} sent={} onwire={} total={} validates={} sig={}",
+                if sent { "ok" } else { "err" }, nesting, pushed, marshalled, sent, got, total, validates, msg.get_sig())
         }
         "SM" => {
             let bo = bo_of(toks[1]);
